@@ -95,8 +95,12 @@ func (m *monC13) PostBegin(ctx sdk.Context) {
 		}
 	}
 	m.beginConcerned = concerned
-	sum := summarizeDiff(diffSnap(m.prevEnd, m.begin))
+	changes := diffSnap(m.prevEnd, m.begin)
+	sum := summarizeDiff(changes)
 	w.Eval("C13")
+	// reward allocation runs over all consumers that hold credits, but a consumer's credit may only be consumed in a denom that is
+	// registered globally or allow-listed by THAT consumer - never because another consumer allow-lists it
+	m.checkRewardCredits(ctx, changes)
 	for id, prefixes := range sum.Owners {
 		if concerned[id] {
 			continue
@@ -125,6 +129,63 @@ func (m *monC13) PostBegin(ctx sdk.Context) {
 	}
 	if len(sum.Unknown) > 0 {
 		w.Event("C13", "unattributable-keys")
+	}
+}
+
+// checkRewardCredits: credits (prefix 55 | len | consumer id | denom) that shrank or vanished in this BeginBlock, judged against the
+// reward denoms registered globally and the consumer's own allow-list as stored before the block.
+func (m *monC13) checkRewardCredits(ctx sdk.Context, changes []KeyChange) {
+	w := m.w
+	pk := w.P.PApp.ProviderKeeper
+	var global map[string]bool
+	for _, ch := range changes {
+		if len(ch.Key) < 9 || ch.Key[0] != 55 || ch.Old == nil {
+			continue
+		}
+		o := ownerOfKey(ch.Key, ch.Old)
+		if !o.known || o.owner == "" {
+			continue
+		}
+		denom := string(ch.Key[9+len(o.owner):])
+		var before, after providertypes.ConsumerRewardsAllocation
+		if before.Unmarshal(ch.Old) != nil {
+			continue
+		}
+		if ch.New != nil && after.Unmarshal(ch.New) != nil {
+			continue
+		}
+		if !sdk.DecCoins(after.Rewards).AmountOf(denom).LT(sdk.DecCoins(before.Rewards).AmountOf(denom)) {
+			continue
+		}
+		if global == nil {
+			global = map[string]bool{}
+			for _, d := range pk.GetAllConsumerRewardDenoms(ctx) {
+				global[d] = true
+			}
+		}
+		own := false
+		if ds, err := pk.GetAllowlistedRewardDenoms(ctx, o.owner); err == nil {
+			for _, d := range ds {
+				if d == denom {
+					own = true
+				}
+			}
+		}
+		w.Eval("C13")
+		w.Event("C13", "reward-credits-consumed-judged-against-own-denoms")
+		if !global[denom] && !own {
+			others := []string{}
+			for _, id := range pk.GetAllConsumerIds(ctx) {
+				if ds, err := pk.GetAllowlistedRewardDenoms(ctx, id); err == nil && id != o.owner {
+					for _, d := range ds {
+						if d == denom {
+							others = append(others, id)
+						}
+					}
+				}
+			}
+			w.Violation("C13", "reward-credit-consumed-in-denom-only-another-consumer-allows", map[string]any{"consumer": o.owner, "denom": denom, "allowed_by": others, "height": ctx.BlockHeight()})
+		}
 	}
 }
 
